@@ -1031,7 +1031,9 @@ class C16(Property):
             "strings, dense lists/tuples, sparse dicts, with ==-equal aliases such as 1/1.0/True and [1,2]/(1,2)), action sets stable or changing per call "
             "(never-seen and disappearing actions), rewards 0/1/dyadic/extreme, epsilon in {0,1,1e-9,.05,...}, seeds incl. those whose k-th uniform is 0 or 1-2^-30; "
             "30% Corral histories (1-60 predict+learn rounds over 1-5 such base learners, eta in [0.01,50], T in {inf,1.5,2,2.5,3,10,100,1000}, both modes, "
-            "on-policy / least-likely-action / logged (probabilities down to 1e-12) feedback, 5 s limit per learn). Non-trivial = bandit: >=3 calls with a predict, "
+            "on-policy / least-likely-action / logged (probabilities down to 1e-12) feedback, 5 s limit per learn; 35% of them with 1-2 base learners that "
+            "are themselves a Corral, optionally under an in-range Misguided wrapper, all four outer/inner mode pairs; a round in which an inner Corral "
+            "would be handed an importance-weighted reward > 1 ends the history un-judged). Non-trivial = bandit: >=3 calls with a predict, "
             "a learn and an action set of >=2; corral: >=2 completed rounds. Distinct by canonical JSON.")
     trusted_base = [
         "floats are modelled by rationals; the running means of BanditEpsilon/BanditUCB go through a rounding parameter `fl` (theorems: for every fl; driver: "
@@ -1046,7 +1048,9 @@ class C16(Property):
     ]
     assumptions = ["action sets are non-empty and duplicate-free (sets); FixedLearner is offered as many actions as its pmf has entries and its pmf sums to 1 exactly",
                    "rewards are finite; Corral's rewards (after Misguided) are in [0,1]; probabilities passed to learn are in (0,1]",
-                   "CorralLearner T > 1 (T=1 divides by log(1)=0 in the constructor) and eta > 0; Corral over Corral is not in the property's list",
+                   "CorralLearner T > 1 (T=1 divides by log(1)=0 in the constructor) and eta > 0; Corral over Corral is exercised although the property's list stops at "
+                   "'Corral over any of them'; an importance-mode Corral hands a base Corral reward/probability > 1, which that Corral rejects by assertion (its documented "
+                   "[0,1] requirement): such rounds are outside the quantifier",
                    "(B) tolerances: score sums to 1 within 1e-9 (float), Corral weights within 1e-4 (stated in the property)"]
     partial_theorems = {}
 
